@@ -59,7 +59,7 @@ def host_program(raiser_lines, declared, arms, position, raised_desc):
     else:
         stmt = [guarded]
     stmt = "\n".join(stmt).split("\n")
-    if position == "stmt":
+    if position in ("stmt", "after-top-handle"):
         body = stmt
     elif position == "init":
         body = ["def hv: Int := " + stmt[0]] + stmt[1:] + ["print(hv)"]
@@ -84,7 +84,10 @@ def host_program(raiser_lines, declared, arms, position, raised_desc):
 def cases(tier, seed):
     quick = tier == "quick"
     raisable = ["E1", "E2", "E3"]
-    positions = ["stmt", "init", "in-if", "in-loop", "in-match-arm", "in-outer-arm", "after-handle"]
+    positions = ["stmt", "init", "in-if", "in-loop", "in-match-arm", "in-outer-arm", "after-handle", "after-top-handle"]
+    # an earlier, complete top-level handle (outside any function) must not leave its arms in force for the
+    # functions defined after it
+    top_handle = ["quiet(0) handle", IND + "oe: Exception =>", IND * 2 + 'print("never")', IND * 2 + "0"]
     n = 0
     pre = DECLS + ["def quiet(n: Int) -> Int raise [E3] =>", IND + "if n > 0 then", IND * 2 + 'raise E3("q")', IND + "n"]
     declared_sets = subsets(["Exception", "E1", "E2", "E3"], 2)
@@ -102,7 +105,7 @@ def cases(tier, seed):
                     ok = covered(x, catch)
                     if arms:
                         continue  # `raise X() handle` is not a form; direct raises are guarded through the callee forms below
-                    src_lines = pre + host_program('raise %s("direct")' % x, declared, arms, position, x)[:-1] + [IND + "7"] if False else pre + host_program('raise %s("direct")' % x, declared, (), position, x)
+                    src_lines = pre + (top_handle if position == "after-top-handle" else []) + host_program('raise %s("direct")' % x, declared, (), position, x)
                     n += 1
                     yield mk(n, "c08.direct-raise", src_lines, ok, [x], [x], declared, arms, position)
                 # (2) call of a callee declaring raise [S]
@@ -116,7 +119,7 @@ def cases(tier, seed):
                     for actual in range(0, len(S) + 1):
                         if quick and actual > 1 and position != "stmt":
                             continue
-                        src_lines = pre + callee + host_program("callee(%d)" % actual, declared, arms, position, S)
+                        src_lines = pre + (top_handle if position == "after-top-handle" else []) + callee + host_program("callee(%d)" % actual, declared, arms, position, S)
                         n += 1
                         yield mk(n, "c08.call", src_lines, ok, list(S), [S[actual - 1]] if actual else [], declared, arms, position)
     # only subclasses of Exception may be declared
